@@ -21,3 +21,40 @@ pub fn vec2d_set(v: &mut Vec2D<u16>, i: usize, x: u16) {
 pub fn vec2d_addr(v: &Vec2D<u16>, i: usize) -> usize {
     &v.data[i] as *const u16 as usize
 }
+
+/// Observer stub for `Vec2D::fill`: records the fill value in the first and the last cell
+/// instead of looping over the table (768+ iterations of IterMut are measured to cost minutes
+/// and > 10 GB under CBMC). What `fill` itself does is decided on a small grid in
+/// `vec2d_fill_unit`.
+pub fn fill_observer<T: Clone>(v: &mut Vec2D<T>, value: T) {
+    let n = v.data.len();
+    if n > 0 {
+        v.data[0] = value.clone();
+        v.data[n - 1] = value;
+    }
+}
+
+use crate::verif_common::*;
+
+//@ harness props=C14 tier=quick unwind=10 mem_gb=3 timeout=300
+//@ bound: Vec2D::init(v, (2,3)) then a symbolic write then fill(w): every cell equals w afterwards (quantified cell), dimensions kept
+#[cfg_attr(kani, kani::proof)]
+#[cfg_attr(kani, kani::stub(std::fmt::format, crate::verif_common::stub_format))]
+pub fn vec2d_fill_unit() {
+    let mut t = Tape::<16>::new();
+    let v0 = t.u16();
+    let w = t.u16();
+    let dirty = t.u16();
+    let i = (t.u8() % 6) as usize;
+    let j = (t.u8() % 6) as usize;
+    let mut g = Vec2D::init(v0, (2, 3));
+    vassert!(g.data.len() == 6 && g.cols == 3, "vec2d: init allocates rows*cols cells");
+    vassert!(g.data[j] == v0, "vec2d: init fills every cell with the given value");
+    g.data[i] = dirty;
+    g.fill(w);
+    vassert!(g.data.len() == 6 && g.cols == 3, "vec2d: fill keeps the dimensions");
+    vassert!(g.data[j] == w, "vec2d: fill overwrites every cell");
+    vassert!(g[1][2] == w && g[j / 3][j % 3] == w, "vec2d: row indexing addresses row*cols + col");
+    vcover!(i == j, "dirty_cell_inspected");
+    forget(g);
+}
